@@ -111,3 +111,15 @@ func deep(r *evid.Run) {
 	})
 	r.Bound("depth: %d text shapes (towers of arrays / objects / alternating containers around 11 one-level and 6 scalar innermost values incl. spellings with inner whitespace, the deep part as first / middle / last element or member, two-value streams, duplicate names and ill-formed UTF-8 at the bottom, unclosed texts) x nesting depths %v x 4 option sets x 7 entry points", len(shs), ds)
 }
+
+// DeepTexts returns the depth-family documents of a tier (shared with C12, whose formatting functions must
+// accept exactly the texts that are valid, nesting limit included).
+func DeepTexts(tier string) (names []string, texts [][]byte) {
+	for _, sh := range deepShapes() {
+		for _, d := range deepDepths(tier) {
+			names = append(names, fmt.Sprintf("%s, nesting %d", sh.name, d))
+			texts = append(texts, []byte(sh.build(d)))
+		}
+	}
+	return
+}
